@@ -2,6 +2,7 @@ package auth
 
 import (
 	"crypto/rand"
+	"crypto/subtle"
 	"encoding/hex"
 	"errors"
 	"fmt"
@@ -97,7 +98,7 @@ func (cr *CryptoSignAuthenticator) Authenticate(sid wamp.ID, details wamp.Dict, 
 			msg.MessageType(), client)
 	}
 
-	verify, err := cr.verifySignature(authRsp.Signature, key)
+	verify, err := cr.verifySignature(authRsp.Signature, key, challenge)
 	if err != nil {
 		return nil, err
 	}
@@ -119,7 +120,7 @@ func (cr *CryptoSignAuthenticator) Authenticate(sid wamp.ID, details wamp.Dict, 
 	return welcome, nil
 }
 
-func (cr *CryptoSignAuthenticator) verifySignature(signature string, publicKey []byte) (bool, error) {
+func (cr *CryptoSignAuthenticator) verifySignature(signature string, publicKey, challenge []byte) (bool, error) {
 	signatureBytes, err := hex.DecodeString(signature)
 	if err != nil {
 		fmt.Println(err)
@@ -130,12 +131,16 @@ func (cr *CryptoSignAuthenticator) verifySignature(signature string, publicKey [
 		return false, fmt.Errorf("signed message has invalid length (was %v, but should have been 96", len(signatureBytes))
 	}
 
-	signedOut := make([]byte, 32)
 	var pubkey [32]byte
 	copy(pubkey[:], publicKey)
-	_, verify := sign.Open(signedOut, signatureBytes, &pubkey)
-
-	return verify, nil
+	signedMsg, verify := sign.Open(nil, signatureBytes, &pubkey)
+	if !verify {
+		return false, nil
+	}
+	// The signed message must be the challenge that was issued in this
+	// handshake; a valid signature of any other message, such as one captured
+	// from another handshake, is not a response to this challenge.
+	return subtle.ConstantTimeCompare(signedMsg, challenge) == 1, nil
 }
 
 // TODO: Finish implementing extractChannelBinding.
